@@ -621,7 +621,8 @@ fn read_code<C: CodeVisitor>(
 
 						if low > high { bail!("in tableswitch `low` must be lower or equal to `high`, it's low={low:?} and high={high:?}"); }
 
-						let n = (high - low + 1) as u32; // always >= 1
+						// computed in i64: `high - low + 1` doesn't fit an i32 for e.g. low = i32::MIN, high = i32::MAX
+						let n = high as i64 - low as i64 + 1; // always >= 1
 
 						for _ in 0..n {
 							labels.create(r.read_i32_as_branch_target_label(opcode_pos)?)?;
@@ -1032,7 +1033,8 @@ fn read_code<C: CodeVisitor>(
 
 				if low > high { bail!("in tableswitch `low` must be lower or equal to `high`, it's low={low:?} and high={high:?}"); }
 
-				let n = (high - low + 1) as u32; // always >= 1
+				// computed in i64, see above; the first pass over the bytecode made sure all `n` entries are there
+				let n = high as i64 - low as i64 + 1; // always >= 1
 
 				let mut table = Vec::with_capacity(n as usize);
 				for _ in 0..n {
